@@ -73,14 +73,25 @@ Section Length.
     else quad_fb_across a b t0 t1.
   (* 1e-12 as the exact binary64 value *)
   Definition eps12 : K := dyadic N 4951760157141521 (-92).
-  (* the whole method; [isnan] is the carrier's NaN test (constantly false over
-     an exact field).  The `t0 == 1 and t1 == 0` cache is C16's subject. *)
-  Definition quad_length (isnan : K -> bool) (s c e : Cplx K) (t0 t1 : K) : K :=
+  (* 1e-8 as the exact binary64 value *)
+  Definition eps8 : K := dyadic N 3022314549036573 (-78).
+  (* nearly straight branch of the repaired code:
+     abs(b)*(t1 - t0) + a_dot_b/abs(b)*(t1**2 - t0**2) *)
+  Definition quad_near_linear (a b : Cplx K) (t0 t1 : K) : K :=
+    cabs b * (t1 - t0) + (re a * re b + im a * im b) / cabs b * (sq t1 - sq t0).
+  (* the whole method.  [isbad] is the test that sends the closed form to the
+     fallback formulas: isnan in the code as it was, `not isfinite` after the
+     repair C06-quad-length-collinear-nonfinite (both constantly false over an
+     exact field).  [nl] = true: the repaired code has the branch
+     `elif abs(a) < 1e-8*abs(b)` (C06-quad-length-near-linear).
+     The `t0 == 1 and t1 == 0` cache is C16's subject. *)
+  Definition quad_length (nl : bool) (isbad : K -> bool) (s c e : Cplx K) (t0 t1 : K) : K :=
     let a := quad_a s c e in
     let b := quad_b s c e in
     if ltb N (cabs a) eps12 then cabs b * (t1 - t0)
+    else if nl && ltb N (cabs a) (eps8 * cabs b) then quad_near_linear a b t0 t1
     else let r := quad_closed a b t0 t1 in
-         if isnan r then quad_collinear a b t0 t1 else r.
+         if isbad r then quad_collinear a b t0 t1 else r.
 
   (* ---------------- segment_length ---------------- *)
   (* Recursive chord rule over an abstract point function.  [fuel] bounds the
@@ -222,7 +233,10 @@ Section Length.
     Variable rep : bool.      (* false: the code as it is.  true: repaired exit test *)
     Variable s s_tol : K.
 
-    (* while iteration < maxits: ... ; fuel = maxits - iteration *)
+    (* while iteration < maxits: ... ; fuel = maxits - iteration.
+       rep = false: the exit test `t_upper == t_lower` after the re-assignment;
+       rep = true (repair C07-ilength-stall-exit): `t == t_lower or t == t_upper`
+       before it, and no test after it *)
     Fixpoint bisect (len : K -> K) (fuel : nat) (lo hi : K) : ires :=
       match fuel with
       | O => EMaxIts
@@ -230,14 +244,14 @@ Section Length.
         let t := (lo + hi) / #2 in
         let st := len t in
         if ltb N (nabs N (st - s)) s_tol then IRet t
+        else if rep && (eqb N t lo || eqb N t hi) then IStall t
         else
           let lo' := if ltb N st s then t else lo in
           let hi' := if ltb N st s then hi else t in
-          if eqb N hi' lo' || (rep && eqb N lo' lo && eqb N hi' hi)
+          if negb rep && eqb N hi' lo'
           then IStall t
           else bisect len f lo' hi'
       end.
-
   End Inv.
 
   Definition inv_arclength_seg (rep is_line : bool) (len : K -> K) (L : K)
@@ -249,28 +263,31 @@ Section Length.
     else if is_line then IRet (s / L)
     else bisect rep s s_tol len maxits (zero N) (one N).
 
-  (* Path branch.  A segment is (is_line, len, L_k); [t2T k t] is Path.t2T. *)
+  (* Path branch.  A segment is (is_line, len, L_k); [t2T k t] is Path.t2T.
+     prep = true (repair C07-path-ilength-inner-range): the segment is called
+     with min(s - lsum, len_k) *)
   Definition pseg : Type := (bool * (K -> K) * K)%type.
-  Fixpoint path_search (rep : bool) (t2T : nat -> K -> K) (segs : list pseg) (k : nat)
+  Fixpoint path_search (rep prep : bool) (t2T : nat -> K -> K) (segs : list pseg) (k : nat)
            (lsum s s_tol : K) (maxits : nat) : ires :=
     match segs with
     | [] => IRet (one N)
     | (is_line, len, Lk) :: r =>
       if leb N lsum s && leb N s (lsum + Lk) then
-        match inv_arclength_seg rep is_line len Lk (s - lsum) s_tol maxits with
+        let s' := if prep then nmin N (s - lsum) Lk else s - lsum in
+        match inv_arclength_seg rep is_line len Lk s' s_tol maxits with
         | IRet t => IRet (t2T k t)
         | IStall t => IStall (t2T k t)
         | e => e
         end
-      else path_search rep t2T r (S k) (lsum + Lk) s s_tol maxits
+      else path_search rep prep t2T r (S k) (lsum + Lk) s s_tol maxits
     end.
-  Definition inv_arclength_path (rep : bool) (t2T : nat -> K -> K) (segs : list pseg)
+  Definition inv_arclength_path (rep prep : bool) (t2T : nat -> K -> K) (segs : list pseg)
              (L : K) (s s_tol : K) (maxits : nat) : ires :=
     if negb (ltb N (zero N) L) then EAssert
     else if negb (leb N (zero N) s && leb N s L) then EValueError
     else if eqb N s (zero N) then IRet (zero N)
     else if eqb N s L then IRet (one N)
-    else path_search rep t2T segs 0 (zero N) s s_tol maxits.
+    else path_search rep prep t2T segs 0 (zero N) s s_tol maxits.
 End Length.
 
 Arguments IRet {K} _. Arguments IStall {K} _.
